@@ -23,7 +23,6 @@ import (
 
 	"gitlab.com/yawning/obfs4.git/common/drbg"
 	"gitlab.com/yawning/obfs4.git/common/probdist"
-	"gitlab.com/yawning/obfs4.git/transports/obfs4"
 
 	"verif/memwire"
 	"verif/mon"
@@ -77,7 +76,11 @@ func residues(vals map[int]bool) map[int]bool {
 func arith(c *mon.Case, r *mon.Run, tails []int, targets []int) {
 	for _, tail := range tails {
 		for _, target := range targets {
-			added, err := obfs4.VerifPadBurst(tail, target)
+			added, err, hooked := padBurstHook(tail, target)
+			if !hooked {
+				r.Count("padburst_hook_unavailable", 1)
+				return
+			}
 			r.Count("evaluations", 1)
 			r.Count("padburst_pairs", 1)
 			if err != nil {
